@@ -28,7 +28,7 @@ import (
 )
 
 func genReadSites() ([]byte, error) {
-	type site struct{ file, fn, callee, arg, origin string }
+	type site struct{ file, fn, callee, arg, origin, target string }
 	var sites []site
 	var dst [][2]string
 	var files []string
@@ -96,6 +96,52 @@ func genReadSites() ([]byte, error) {
 				}
 				return true
 			})
+			// innermost enclosing for/range body of every call, and the identifiers declared inside it
+			loopOf := map[*ast.CallExpr]*ast.BlockStmt{}
+			var walkLoops func(n ast.Node, cur *ast.BlockStmt)
+			walkLoops = func(n ast.Node, cur *ast.BlockStmt) {
+				ast.Inspect(n, func(x ast.Node) bool {
+					switch l := x.(type) {
+					case *ast.ForStmt:
+						if x != n {
+							walkLoops(l.Body, l.Body)
+							return false
+						}
+					case *ast.RangeStmt:
+						if x != n {
+							walkLoops(l.Body, l.Body)
+							return false
+						}
+					case *ast.CallExpr:
+						loopOf[l] = cur
+					}
+					return true
+				})
+			}
+			walkLoops(fd.Body, nil)
+			declaredIn := func(body *ast.BlockStmt, name string) bool {
+				found := false
+				ast.Inspect(body, func(x ast.Node) bool {
+					switch d := x.(type) {
+					case *ast.ValueSpec:
+						for _, id := range d.Names {
+							if id.Name == name {
+								found = true
+							}
+						}
+					case *ast.AssignStmt:
+						if d.Tok == token.DEFINE {
+							for _, l := range d.Lhs {
+								if id, ok := l.(*ast.Ident); ok && id.Name == name {
+									found = true
+								}
+							}
+						}
+					}
+					return true
+				})
+				return found
+			}
 			ast.Inspect(fd.Body, func(n ast.Node) bool {
 				c, ok := n.(*ast.CallExpr)
 				if !ok {
@@ -115,7 +161,32 @@ func genReadSites() ([]byte, error) {
 							origin = o
 						}
 					}
-					sites = append(sites, site{rel, fd.Name.Name, fn, exprString(c.Args[0]), origin})
+					// the decode target of ReadMsgInto: json.Unmarshal MERGES into it, so inside a loop it has to be a
+					// value declared in the loop body ("fresh"); "shared" = declared outside the loop it is used in
+					target := "none"
+					if strings.HasSuffix(fn, "ReadMsgInto") && len(c.Args) >= 2 {
+						target = "noloop"
+						if body := loopOf[c]; body != nil {
+							target = "unknown"
+							switch a := c.Args[1].(type) {
+							case *ast.UnaryExpr:
+								if id, ok := a.X.(*ast.Ident); ok && a.Op == token.AND {
+									if declaredIn(body, id.Name) {
+										target = "fresh"
+									} else {
+										target = "shared"
+									}
+								}
+							case *ast.Ident:
+								if declaredIn(body, a.Name) {
+									target = "fresh"
+								} else {
+									target = "shared"
+								}
+							}
+						}
+					}
+					sites = append(sites, site{rel, fd.Name.Name, fn, exprString(c.Args[0]), origin, target})
 				}
 				if wantDst {
 					if sel, ok := c.Fun.(*ast.SelectorExpr); ok && len(c.Args) == 2 &&
@@ -134,6 +205,21 @@ func genReadSites() ([]byte, error) {
 	b.WriteString("(* GENERATED by translator unit T1 (read sites) from client/, server/, pkg/ -- do not edit *)\n")
 	b.WriteString("From FRP Require Import Model.Bytes.\nLocal Open Scope string_scope.\n")
 	b.WriteString("Definition T1S_translated : bool := true.\n")
+	b.WriteString("(* decode target of each site: none (ReadMsg) | noloop | fresh | shared | unknown *)\n")
+	b.WriteString("Definition read_targets : list (string * string * string) := [\n")
+	for i, s := range sites {
+		sep := ";"
+		if i == len(sites)-1 {
+			sep = ""
+		}
+		fmt.Fprintf(&b, "  (%s, %s, %s)%s\n", tx.CoqString(s.file), tx.CoqString(s.fn), tx.CoqString(s.target), sep)
+	}
+	b.WriteString("].\n")
+	disp, err := dispatchFacts()
+	if err != nil {
+		return nil, err
+	}
+	b.WriteString(disp)
 	b.WriteString("Definition read_sites : list (string * string * string * string * string) := [\n")
 	for i, s := range sites {
 		sep := ";"
@@ -153,4 +239,85 @@ func genReadSites() ([]byte, error) {
 	}
 	b.WriteString("].\n")
 	return b.Bytes(), nil
+}
+
+// dispatchFacts: pkg/msg/handler.go and server/control.go registerMsgHandlers, the facts the read-loop model
+// (Model/FrameSys.v fs_stream_step: messages are handled one after the other INSIDE the loop, the session
+// ends only after the loop) rests on.
+func dispatchFacts() (string, error) {
+	fset := token.NewFileSet()
+	f, err := parser.ParseFile(fset, filepath.Join(tx.Repo, "pkg/msg/handler.go"), nil, 0)
+	if err != nil {
+		return "", err
+	}
+	closeSites := []string{} // functions that close(d.doneCh)
+	loopGo, loopDirect, loopDefault := 0, 0, 0
+	for _, d := range f.Decls {
+		fd, ok := d.(*ast.FuncDecl)
+		if !ok || fd.Body == nil {
+			continue
+		}
+		ast.Inspect(fd.Body, func(n ast.Node) bool {
+			if c, ok := n.(*ast.CallExpr); ok && exprString(c.Fun) == "close" && len(c.Args) == 1 && strings.HasSuffix(exprString(c.Args[0]), "doneCh") {
+				closeSites = append(closeSites, fd.Name.Name)
+			}
+			return true
+		})
+		if fd.Name.Name == "readLoop" {
+			ast.Inspect(fd.Body, func(n ast.Node) bool {
+				switch x := n.(type) {
+				case *ast.GoStmt:
+					loopGo++
+				case *ast.FuncLit:
+					loopGo++ // a closure in the loop could defer the call: not the shape the model mirrors
+				case *ast.ExprStmt:
+					if c, ok := x.X.(*ast.CallExpr); ok {
+						switch exprString(c.Fun) {
+						case "handler":
+							loopDirect++
+						case "d.defaultHandler":
+							loopDefault++
+						}
+					}
+				}
+				return true
+			})
+		}
+	}
+	g, err := parser.ParseFile(fset, filepath.Join(tx.Repo, "server/control.go"), nil, 0)
+	if err != nil {
+		return "", err
+	}
+	var regs []string
+	for _, d := range g.Decls {
+		fd, ok := d.(*ast.FuncDecl)
+		if !ok || fd.Body == nil || fd.Name.Name != "registerMsgHandlers" {
+			continue
+		}
+		ast.Inspect(fd.Body, func(n ast.Node) bool {
+			c, ok := n.(*ast.CallExpr)
+			if !ok || !strings.HasSuffix(exprString(c.Fun), "RegisterHandler") || len(c.Args) != 2 {
+				return true
+			}
+			mode := "sync"
+			if hc, ok := c.Args[1].(*ast.CallExpr); ok {
+				mode = "wrapped:" + exprString(hc.Fun)
+			} else if _, ok := c.Args[1].(*ast.FuncLit); ok {
+				mode = "closure"
+			}
+			regs = append(regs, fmt.Sprintf("(%s, %s)", tx.CoqString(exprString(c.Args[0])), tx.CoqString(mode)))
+			return true
+		})
+	}
+	var b bytes.Buffer
+	var cs []string
+	for _, c := range closeSites {
+		cs = append(cs, tx.CoqString(c))
+	}
+	fmt.Fprintf(&b, "(* pkg/msg/handler.go: functions that close doneCh; go statements / closures, direct handler(m) calls, default handler calls inside readLoop *)\n")
+	fmt.Fprintf(&b, "Definition donech_closers : list string := [%s].\n", strings.Join(cs, "; "))
+	fmt.Fprintf(&b, "Definition readloop_shape : Z * Z * Z := (%d%%Z, %d%%Z, %d%%Z).\n", loopGo, loopDirect, loopDefault)
+	fmt.Fprintf(&b, "(* server/control.go registerMsgHandlers: message -> how its handler is registered *)\n")
+	fmt.Fprintf(&b, "Definition server_handlers : list (string * string) := [%s].\n", strings.Join(regs, "; "))
+	return b.String(), nil
 }
